@@ -36,6 +36,7 @@ def mutants(prog):
     B, S = "deepali.core.bspline", "deepali.spatial.bspline"
     W = "cubic_bspline_interpolation_weights"
     specs = [
+        ('single weight table applied to the first axis only', 'deepali.core.bspline', 'evaluate_cubic_bspline', 'kernel = [kernel] * D', 'kernel = [kernel]', 'T3.evaluate'),
         ("weight 1/6", B, W, "kernel[:, 3] = offset.pow(3).mul_(1 / 6)", "kernel[:, 3] = offset.pow(3).mul_(1 / 3)", "T3.weights"),
         ("weight column", B, W, "kernel[:, 2] = offset.add(kernel[:, 0]).sub_(kernel[:, 3].mul(2))", "kernel[:, 2] = offset.add(kernel[:, 0]).sub_(kernel[:, 3])", "T3."),
         ("first derivative", B, W, "kernel[:, 0] = offset.sub(kernel[:, 3]).sub_(0.5)", "kernel[:, 0] = offset.sub(kernel[:, 3]).add_(0.5)", "T3."),
